@@ -634,7 +634,7 @@ def pair_effects(env, by_name, cd, cls, mname, pat, kind, adv):
     elif isinstance(pat, tuple):
         attr = pat[1]
         a = next((x for x in cd["attrs"] if x["name"] == attr), None)
-        if a is not None and pat[0] in ("update", "transform"):
+        if a is not None and pat[0] in ("with", "update", "transform"):
             base, _, ref = a["ty"].partition(":")
             if base in ("list_nested", "dict_nested", "klist", "kset"):
                 target_cd, mode, op = by_name[ref], base, pat[0]
@@ -680,8 +680,8 @@ def pair_effects(env, by_name, cd, cls, mname, pat, kind, adv):
             plans += [(True, [k1, k2]), (False, [k1, k2])]
     out = []
     for seq, (positional, ks) in enumerate(plans):
-        if op == "with" and not positional and mode == "attr":
-            continue  # with_<attr>(**kw) alone: constructor path, covered by effects_for
+        if op == "with" and not positional:
+            continue  # with_<attr>(**kw) / with_<item>(**kw) alone: constructor path, covered by effects_for
         init, given = values(), values()
         inplace = seq % 3 == 2 and not cd.get("frozen") and not target_cd.get("frozen")
         ctl = {"_inplace": True} if inplace else {}
@@ -717,22 +717,32 @@ def pair_effects(env, by_name, cd, cls, mname, pat, kind, adv):
                 coll = {"ka": e0, "kb": e1} if mode == "dict_nested" else [e0, e1]
                 recv = getattr(make_instance(cls, cd), "with_" + attr)(coll)
                 if pos is None:
-                    pos = [build(given, keyval(1))] if positional else []
-                if mode == "dict_nested":
-                    sel = "kb"
-                elif mode == "kset" or (mode == "klist" and seq % 2 == 0):
-                    sel = keyval(1)
+                    pos = [build(given, keyval(2 if op == "with" else 1))] if positional else []
+                if op == "with":
+                    # a new element handed over as an instance, keywords on top of it
+                    res = getattr(getattr(recv, mname)(*(["kc"] if mode == "dict_nested" else []), *pos, **kw, **ctl), attr)
+                    if mode == "dict_nested":
+                        target = res["kc"]
+                    elif tkey:
+                        target = next(x for x in res if getattr(x, tkey) == keyval(2))
+                    else:
+                        target = list(res)[-1]
                 else:
-                    sel = 1
-                    if mode == "klist" or seq % 2:
-                        ctl["_by_index"] = True
-                res = getattr(getattr(recv, mname)(sel, *pos, **kw, **ctl), attr)
-                if mode == "dict_nested":
-                    target = res["kb"]
-                elif mode == "kset":
-                    target = next(x for x in res if getattr(x, tkey) == keyval(1))
-                else:
-                    target = list(res)[1]
+                    if mode == "dict_nested":
+                        sel = "kb"
+                    elif mode == "kset" or (mode == "klist" and seq % 2 == 0):
+                        sel = keyval(1)
+                    else:
+                        sel = 1
+                        if mode == "klist" or seq % 2:
+                            ctl["_by_index"] = True
+                    res = getattr(getattr(recv, mname)(sel, *pos, **kw, **ctl), attr)
+                    if mode == "dict_nested":
+                        target = res["kb"]
+                    elif mode == "kset":
+                        target = next(x for x in res if getattr(x, tkey) == keyval(1))
+                    else:
+                        target = list(res)[1]
             d = object.__getattribute__(target, "__dict__")
             obs = [(k, enc_obs(v), enc_obs(d.get(k)), None) for k, v in expected.items()]
             if op == "transform" and sorted(calls) != sorted((["T"] if positional else []) + ks):
